@@ -168,6 +168,9 @@ class Decomposer:
                 tensors_out.append(subtensor)
 
             tensor_out = self.classical.concatenate(tensors_out, axis=concat_index)
+        elif any(isinstance(e, stage3.ConcatenatedAxis) for e in expr_out_flat.nodes()):
+            # A concatenation is nested more deeply in flattened axes -> compose the unflattened expression first
+            tensor_out = self._compose_next(exprs_in, tensors_in, expr_out_flat)
         else:
             _ = next(exprs_in)  # next_expr_in
             tensor_out = next(tensors_in)
